@@ -115,7 +115,23 @@ pub mod ssri {
         ensures #[trigger] parse_integrity("sha1-deadbeef"@) is Some
     {}
 
-    pub broadcast group group_ssri_axioms { axiom_parse_display, axiom_parse_deadbeef }
+    /// `#[derive(PartialEq)]` of ssri::Integrity: equal values have equal views (nothing is
+    /// assumed about unequal ones)
+    pub uninterp spec fn integrity_same(a: Integrity, b: Integrity) -> bool;
+    impl ::std::cmp::PartialEq for Integrity {
+        #[verifier::external_body]
+        fn eq(&self, other: &Self) -> (r: bool) { unimplemented!() }
+    }
+    impl vstd::std_specs::cmp::PartialEqSpecImpl for Integrity {
+        open spec fn obeys_eq_spec() -> bool { true }
+        open spec fn eq_spec(&self, other: &Self) -> bool { integrity_same(*self, *other) }
+    }
+    #[verifier::external_body]
+    pub broadcast proof fn axiom_integrity_same(a: Integrity, b: Integrity)
+        ensures #[trigger] integrity_same(a, b) ==> a@ == b@
+    {}
+
+    pub broadcast group group_ssri_axioms { axiom_parse_display, axiom_parse_deadbeef, axiom_integrity_same }
 
     #[verifier::external_body]
     pub struct IntegrityChecker { i: u8 }
